@@ -315,4 +315,53 @@ def stepMergeOrig (prod : PMap) (e : Name × List (Nat × Int)) : PMap :=
   | some mine => assocSet prod e.1 (overlay mine mine)
   | none => assocSet prod e.1 e.2
 
+/-! ### the delivery loops in Go's panic semantics never let a panic out -/
+
+theorem notifyTargetX_spec (pan : Nat → Bool) (n : Nat) (name : Name) (d : Int × Nat) :
+    notifyTargetX pan n name d = ⟨notifyTarget pan n name d, none⟩ := by
+  unfold notifyTargetX notifyTarget frame callTarget recovery reports?
+  cases hp : pan d.2 <;> cases hh : handlerKind n <;> simp [Run.skip, frame, callHandler, recoveryNil]
+
+theorem notifyBatchTargetX_spec (pan : Nat → Bool) (n : Nat) (start : Bool) (t : Nat) :
+    notifyBatchTargetX pan n start t = ⟨notifyBatchTarget pan n start t, none⟩ := by
+  unfold notifyBatchTargetX notifyBatchTarget frame callTarget recovery reports?
+  cases hp : pan t <;> cases hh : handlerKind n <;> simp [Run.skip, frame, callHandler, recoveryNil]
+
+theorem loopX_spec {α : Type} (f : α → Run) (g : α → List Event) (h : ∀ x, f x = ⟨g x, none⟩) (xs : List α) :
+    loopX f xs = ⟨xs.flatMap g, none⟩ := by
+  induction xs with
+  | nil => rfl
+  | cons x xs ih => simp [loopX, Run.seq, h x, ih]
+
+/-- the notification loop, executed with panics propagating out of every frame that does not recover them, runs to
+    its end (`out = none`) and makes exactly the calls of the closed form `deliverAll` -/
+theorem deliverX_spec (pan : Nat → Bool) (n : Nat) (name : Name) (ds : List (Int × Nat)) :
+    deliverX pan n name ds = ⟨deliverAll pan n name ds, none⟩ :=
+  loopX_spec _ _ (notifyTargetX_spec pan n name) ds
+
+theorem batchX_spec (pan : Nat → Bool) (n : Nat) (start : Bool) (ts : List Nat) :
+    batchX pan n start ts = ⟨batchAll pan n start ts, none⟩ :=
+  loopX_spec _ _ (notifyBatchTargetX_spec pan n start) ts
+
+/-- `step` with the traces in closed form -/
+def stepSpec (pan : Nat → Bool) (w : World) : Op → World × List Event
+  | .register n t p raws => (w.set n (register (w n) t p raws), [])
+  | .unregister n t => (w.set n (unregister (w n) t), [])
+  | .merge n m => if n = m then (w, []) else (w.set n (mergeFrom (w n) (w m)), [])
+  | .setEnabled n b => (w.set n (setEnabled (w n) b), [])
+  | .reset n => (w.set n (reset (w n)), [])
+  | .startBatch n => (w.set n (startBatch (w n)).1, batchAll pan n true (startBatch (w n)).2)
+  | .endBatch n => (w.set n (endBatch (w n)).1, batchAll pan n false (endBatch (w n)).2)
+  | .notify n raw => (w, deliverAll pan n (normalize raw) (notify (w n) raw))
+
+theorem step_spec (pan : Nat → Bool) (w : World) (op : Op) : step pan w op = stepSpec pan w op := by
+  cases op <;> simp only [step, stepSpec, deliverX_spec, batchX_spec]
+
+/-- the variant with ONE recover around the whole loop (what a refactoring into
+    `func notifyAll(list) { defer errs.Recovery(h); for … { target.HandleNotification(…) } }` gives; regression ind2-c17-b
+    did this to the batch loop): not part of the model, used for the counter-example in `Props/C17.lean` -/
+def deliverLoopLevel (pan : Nat → Bool) (n : Nat) (name : Name) (ds : List (Int × Nat)) : Run :=
+  frame (loopX (fun d => callTarget pan (Event.handle n d.2 name d.1) d.2) ds)
+    (fun p => recovery (handlerKind n) n (p.getD 0) p)
+
 end Nt
